@@ -17,6 +17,8 @@ def main():
     assert ok
     from pv import selfcheck
     selfcheck.main()
+    from pv import selfcheck_alias
+    selfcheck_alias.main()
     print("pv setup ok")
 
 
